@@ -423,7 +423,7 @@ def plan(pid: str, tier: str, seed: int) -> dict:
             component=lambda rep: suspend_component(rep, tier, seed),
         )
     if pid == "C11":
-        progs = [PR.by_name(n) for n in ("mutex2", "mutex3", "mutexfail", "mutexsusp", "choice2", "choice3")]
+        progs = [PR.by_name(n) for n in ("mutex2", "mutex3", "mutexfail", "mutexsusp", "choice2", "choice3", "choicelazy", "mutexlazy")]
         nseed = 30 if quick else 400
         return dict(
             progs=progs, props=["C11_Mutex", "C11_ChoiceAtMostOne", "C11_ChoiceLosersCanceled", "C11_MutexWaiterRuns",
@@ -439,11 +439,12 @@ def plan(pid: str, tier: str, seed: int) -> dict:
                                  for at in range(1, 40, 1 if not quick else 2) for sh in (0, 1)]
                               + [{"kind": "crash", "prog": p, "points": pts, "late_expire": le}
                                  for p in progs if p["name"] != "mutexsusp" for le in (False, True)
-                                 for pts in chunks(range(1, refs[p["name"]]["commits"] + 1, 2 if quick else 1), 24)],
+                                 for pts in chunks(range(1, refs[p["name"]]["commits"] + 1), 24)],     # EVERY commit (the kill
+            # between a stage's claim commit and its plan commit sends the redelivered StartStage through the claim again)
             component=lambda rep: __import__("harness.check_race", fromlist=["component"]).component(rep, tier, seed, "siblings"),
             mc=[(n, {"AnyOrder": "TRUE"}, {}) for n in ("mutex3", "choice3", "choice2", "mutexfail")]
                + [("mutex2", {"AnyOrder": "TRUE", "MaxEarly": 1}, {})]
-               + [(n, {"AnyOrder": "FALSE", "MaxCrashes": 1}, {}) for n in ("mutex2", "mutex3", "choice2", "choice3")]
+               + [(n, {"AnyOrder": "FALSE", "MaxCrashes": 1}, {}) for n in ("mutex2", "mutex3", "choice2", "choice3", "choicelazy", "mutexlazy")]
                + ([] if quick else [(n, {"AnyOrder": "TRUE", "MaxWithhold": 1}, {}) for n in ("mutex3", "choice3")]
                                    + [("choice2", {"AnyOrder": "TRUE", "MaxEarly": 1}, {})]),
             allow_ref_mismatch=True,
